@@ -10,21 +10,71 @@ PROPS["C18"] = dict(
     level_text="Differential and algebraic property tests (rapidcheck + libFuzzer, ASan/UBSan): every explored "
                "setting string agreed with a two-sided reference grammar for the five environment readers under "
                "every ambient errno, every generated pair of attribute maps merged as the union with the "
-               "argument winning, and Resource::Create / OTEL_SDK_DISABLED were checked in a fresh process per "
-               "case. Exploration is the right level: the domain (all strings, all maps) is unbounded and the "
-               "oracle is cheap, so breadth of generated boundary cases is what finds parsing and precedence defects.",
-    technique="differential reference grammar (two-sided) + algebraic laws + fork-per-case precedence model; "
-              "rapidcheck and libFuzzer",
-    rule="Cases are choice streams decoded into environment settings, attribute maps and schema URLs.",
+               "argument winning, every generated OTEL_RESOURCE_ATTRIBUTES list (and settings derived from it) was "
+               "read under one consistent reading of the list syntax, Resource::Create / OTEL_SDK_DISABLED were "
+               "checked in a fresh process per case, and every span, log record and metric batch of providers built "
+               "through every public constructor / factory overload carried exactly its provider's resource at every "
+               "exporter. Exploration is the right level: the domain (all strings, all maps, all provider shapes) is "
+               "unbounded and the oracle is cheap, so breadth of generated boundary cases is what finds parsing, "
+               "precedence and fan-out defects.",
+    technique="differential reference grammar (two-sided) + algebraic laws + fork-per-case precedence model + "
+              "metamorphic consistency of the list reading across derived settings + resource-content model at "
+              "harness exporters over generated provider construction paths; rapidcheck and libFuzzer",
+    rule="Cases are choice streams decoded into environment settings, attribute maps and schema URLs, and into "
+         "(resource, provider construction path, processor / reader list, operation list) configurations.",
+    generators="readers: one named string class per alternative (edges of 2^32 / 2^63 / 2^64, many digits, signs, blank "
+               "padding, units, junk, odd spellings, random bytes) x ambient errno 0 / ERANGE / EINVAL. gen_env "
+               "(res_detect, res_create, sdk_disabled): list unset / empty / random / structured; a structured list "
+               "has 1..6 members (6 % of the control bytes: 7..52) of 9 kinds (well-formed, missing '=', empty "
+               "member / key / value, blanks in four positions, '=' or '%' in the value, repeated key); keys and "
+               "values come from small pools (so that layers and members collide) or, for 14 % of each, from a rich "
+               "generator: inner blanks, ';', '\"', UTF-8 and invalid high bytes, random bytes, filler of 200..3200 "
+               "bytes (beyond 1 KiB); OTEL_SERVICE_NAME unset / svcN / empty / six oddities / random bytes / rich text. "
+               "res_detect additionally derives 0..2 settings from the generated one: members reversed or rotated, one "
+               "odd member (13 forms) inserted at two different positions, an existing key repeated at two positions. "
+               "res_detect_bytes: arbitrary list bytes, service name unset / 'svc' / up to 15 arbitrary bytes, plus the "
+               "same members in reverse order. res_merge / res_create / res_reference attribute maps: 16 value types "
+               "with edge numbers, NUL-carrying keys and strings, long keys. res_reference: resource given as built, "
+               "given as Resource::Create(...) result, or left to the default argument; tracer / logger / meter provider "
+               "through constructor or factory, one-processor or vector overload, every argument count (0..4 / 0..2 / "
+               "0..3), TracerContext / LoggerContext / MeterContext through constructor or context factory and handed to "
+               "the provider constructor or factory, LoggerProvider(); 1..3 processors (Simple, or a holding one that "
+               "exports in one batch at flush / shutdown / destruction) handed over or added by AddProcessor before / "
+               "after Get{Tracer,Logger,Meter} and between operations; 1..3 readers with or without a MetricFilter; 1..6 "
+               "operations (spans ended at once, kept open, children, second tracer; EmitLogRecord(args), "
+               "CreateLogRecord + EmitLogRecord(record[, args]) possibly through another logger of the provider, Log(), "
+               "EventLogger::EmitEvent; counter / histogram on one or two meters, Collect on a reader) and 1..2 final "
+               "collections per reader; ForceFlush / Shutdown / plain destruction, scopes released before or after "
+               "the provider; in 20 % a second provider of the same signal with another resource is used in between.",
+    oracle="readers: verdict ACCEPT (true + exact value) / REJECT (documented default) / EITHER per (reader, string) from a "
+           "reference written from the statement. res_merge: union model + laws. res_detect: the detected map must equal "
+           "the reading under at least one of 128 profiles (7 independent open choices), and ONE profile must explain the "
+           "generated setting and every setting derived from it. res_create / sdk_disabled (fresh process per case): "
+           "defaults < environment (any allowed reading) < caller, service.name rule, schema URL; Set*Provider installs "
+           "exactly when the boolean grammar says so. Clause 7 (sdk_disabled, res_reference): the resource CONTENT "
+           "(attributes by type and value, schema URL) found in every recordable / batch, read inside the exporter at "
+           "export time, equals what the provider was built with, and Provider::GetResource() equals it too; the "
+           "argument object is destroyed right after construction (a retained reference is a sanitizer report); whether "
+           "the recordable points at the provider's own object or at an equal copy is recorded as a tag only "
+           "(ref-same-object / ref-equal-copy). Non-vacuity: a processor attached before a recordable was made must "
+           "receive it; a reader attached before an instrument with measurements was created must see a non-empty batch.",
     assumptions=[
         "readers: blank padding, a leading sign (non-negative value), a zero duration and float spellings "
         "beyond plain decimals (exponent, hex, inf/nan, underflow) are either-regions: reject, or accept "
         "with exactly the denoted value; a rejected duration may leave the out-parameter untouched",
         "a bare number is a duration in seconds (documented in env_variables.cc)",
+        "the boolean reader's return flag means 'the variable exists' (env_variables.h), so 'false' and an invalid "
+        "string are both (true, false); the warning that the implementation logs for an invalid string is not "
+        "documented anywhere and is therefore not required",
         "OTEL_RESOURCE_ATTRIBUTES: blank trimming, percent-decoding, first/last of a repeated key, "
         "empty keys/tokens and skip-token vs discard-all on a malformed token are either-regions "
-        "(specification vs implementation); the value splits at the first '='",
+        "(specification vs implementation); the value splits at the first '='; the choice among them is one "
+        "choice per process, not one per setting or per member",
         "the C library's strtof is the trusted grammar for float spellings beyond plain decimals",
+        "clause 7: 'references its provider's resource' is decided on the content of the resource; an empty "
+        "metric batch without a resource pointer is accepted; the default-argument resource of a process without "
+        "OTEL_* settings is the SDK defaults plus service.name=unknown_service",
+        "all readers run in the C locale (no other locale is installed on the image)",
         SC_NOTE,
     ],
     runs=[
@@ -38,6 +88,8 @@ PROPS["C18"] = dict(
         # fork per case (about 6 ms / 14 ms each): modest counts, every child does several checks
         run("create", "c18_rc", "res_create", "rc", dict(procs=3, cases=1500), dict(procs=6, cases=12000)),
         run("disabled", "c18_rc", "sdk_disabled", "rc", dict(procs=2, cases=1000), dict(procs=6, cases=7000)),
+        # no fork, no environment: generated provider construction paths and operation lists (clause 7)
+        run("reference", "c18_rc", "res_reference", "rc", dict(procs=2, cases=30000), dict(procs=4, cases=200000)),
         run("bytes-fuzz", "c18_fuzz", "env_bytes", "fuzz", dict(procs=2, cases=300000, max_len=64),
             dict(procs=6, cases=2500000, max_len=96), replay_bin="c18_rc"),
         run("detect-fuzz", "c18_fuzz", "res_detect_bytes", "fuzz", dict(procs=1, cases=40000, max_len=48),
